@@ -267,6 +267,30 @@ func NewSpec(seed uint64, prop string) *Spec {
 			&field{Name: fmt.Sprintf("F%d", len(root.Fields)), TName: fmt.Sprintf("F%d", len(root.Fields)), N: &node{Kind: "slice", Elem: sh}},
 			&field{Name: fmt.Sprintf("F%d", len(root.Fields)+1), TName: fmt.Sprintf("F%d", len(root.Fields)+1), N: &node{Kind: "map", Key: &node{Kind: "basic", Basic: "string"}, Elem: sh}})
 	}
+	if prop == "C04" && s.UseZero {
+		// *T -> T (useZeroValueOnPointerInconsistency) where T is one named struct on both
+		// sides whose references sit two struct levels down: a shortcut that only looks at the
+		// direct fields of T would dereference instead of copying
+		inner := &node{Kind: "shared", ID: s.id()}
+		s.Shared[inner.ID] = inner
+		inner.Fields = append(inner.Fields,
+			&field{Name: "H0", TName: "H0", N: &node{Kind: "slice", Elem: &node{Kind: "basic", Basic: "string"}}},
+			&field{Name: "H1", TName: "H1", N: &node{Kind: "map", Key: &node{Kind: "basic", Basic: "string"}, Elem: &node{Kind: "basic", Basic: "int"}}})
+		mid := &node{Kind: "shared", ID: s.id()}
+		s.Shared[mid.ID] = mid
+		mid.Fields = append(mid.Fields,
+			&field{Name: "H0", TName: "H0", N: &node{Kind: "basic", Basic: "int"}},
+			&field{Name: "H1", TName: "H1", N: inner})
+		outer := &node{Kind: "shared", ID: s.id()}
+		s.Shared[outer.ID] = outer
+		outer.Fields = append(outer.Fields,
+			&field{Name: "H0", TName: "H0", N: &node{Kind: "basic", Basic: "string"}},
+			&field{Name: "H1", TName: "H1", N: mid})
+		root := s.Roots[0]
+		root.Fields = append(root.Fields,
+			&field{Name: fmt.Sprintf("F%d", len(root.Fields)), TName: fmt.Sprintf("F%d", len(root.Fields)), N: &node{Kind: "sptr", Elem: outer}},
+			&field{Name: fmt.Sprintf("F%d", len(root.Fields)+1), TName: fmt.Sprintf("F%d", len(root.Fields)+1), N: &node{Kind: "slice", Elem: &node{Kind: "sptr", Elem: mid}}})
+	}
 	if prop == "C04" && s.SkipCopy {
 		// converter-level skipCopySameType: positions whose types are NOT identical although
 		// they look alike must always be present (named vs unnamed container, T vs *T)
